@@ -132,6 +132,7 @@ func c01GenCaseForTable(r *vc.Rand, name string, t *atTable) *atCase {
 				grp.Stmts = append(grp.Stmts, atGenDelete(r, t, o))
 			case 3:
 				o.shuffleCols = r.Bool()
+				o.mixedArgs = r.Intn(3) == 0
 				grp.Stmts = append(grp.Stmts, atGenInsert(r, t, o, 1, &seq))
 				if !strings.HasPrefix(t.PKKind, "autoinc") && r.Bool() {
 					// the row just inserted is written again by another statement form (same or next local transaction)
@@ -139,6 +140,7 @@ func c01GenCaseForTable(r *vc.Rand, name string, t *atTable) *atCase {
 				}
 			case 4:
 				o.shuffleCols = r.Bool()
+				o.mixedArgs = r.Intn(3) == 0
 				grp.Stmts = append(grp.Stmts, atGenInsert(r, t, o, 2+r.Intn(2), &seq))
 			case 5:
 				// now and then the update list assigns the very unique-index column a row may be found by (finding C03-K1)
